@@ -227,6 +227,23 @@ var boundary = [][]string{
 		"call u1 ra - 0 ps,k2,0",
 		"call u0 ra - 0 ps,k6,900",
 	},
+	{ // ugnot restricted: sends are refused, deposits still lock, refunds go to the fee collector
+		"call u1 ra - 0 ps,k1,50",
+		"restrict 1",
+		"call u1 ra 5:ugnot 0 -",
+		"call u1 ra - 0 nb,2,c;sd,ra,u2,1:ugnot",
+		"call u1 ra - 0 nb,2,c;sd,ra,u2,0:ugnot",
+		"call u1 ra - 0 nb,3,c;is,ra," + raD + "foo,5;nb,2,c;sd,ra,u2,3:" + raD + "foo",
+		"call u1 ra - 0 ps,k2,10",
+		"call u1 ra - 0 ps,k1,1",
+		"call u0 ra - 0 ps,k1,0;ps,k2,0",
+		"send u1 u2 5:ugnot",
+		"run u1 5:ugnot 0 -",
+		"run u1 - 0 nb,2,c;sd,u1,u2,9:ugnot",
+		"restrict 0",
+		"call u1 ra 5:ugnot 0 ps,k1,9",
+		"restrict 2",
+	},
 	{ // bank sends
 		"send u1 u2 5:ugnot",
 		"send u2 u1 5005:ugnot",
@@ -551,8 +568,10 @@ func (g *gctx) txLine() string {
 		return fmt.Sprintf("run %s %s %s %s", signer, send, dep, g.prog("main", "main", signer, false, false, false, 0))
 	case k < 97:
 		return fmt.Sprintf("send %s %s %s", signer, kit.Pick(r, allAddrs[:17]), g.coins("main"))
-	default:
+	case k < 99:
 		return fmt.Sprintf("price %d", 1+r.Intn(300))
+	default:
+		return fmt.Sprintf("restrict %d", r.Intn(2))
 	}
 }
 
